@@ -109,9 +109,10 @@ type Outcome struct {
 	RecoverNote   string
 	Notes         []string
 	StorageHist   []StorageOp
-	RefusedUps    []uuid.UUID // resumes the broker actually refused
-	CutUps        []uuid.UUID // resume exchanges actually cut
-	AllUpIDs      []uuid.UUID // every upstream id the broker ever assigned
+	RefusedUps    []uuid.UUID          // resumes the broker actually refused
+	CutUps        []uuid.UUID          // resume exchanges actually cut
+	AllUpIDs      []uuid.UUID          // every upstream id the broker ever assigned
+	AllDownAlias  map[uuid.UUID]uint32 // every downstream the broker ever registered: id -> alias
 	LinkInfos     []LinkInfo
 }
 
@@ -129,6 +130,8 @@ func (o *Outcome) ResumeCompleted(stream uuid.UUID, link int) bool {
 		if li.ID != link {
 			continue
 		}
+		// two passes: the log appends a write record after the message is already on its way, so the response may be
+		// logged before the request
 		reqs := map[uint32]bool{}
 		for _, r := range li.Log {
 			if r.Dir == memnet.C2S && r.OK {
@@ -143,6 +146,8 @@ func (o *Outcome) ResumeCompleted(stream uuid.UUID, link int) bool {
 					}
 				}
 			}
+		}
+		for _, r := range li.Log {
 			if r.Dir == memnet.S2C && r.OK {
 				switch m := r.Msg.(type) {
 				case *message.UpstreamResumeResponse:
@@ -773,8 +778,10 @@ func Run(s Scenario) *Outcome {
 	}
 	w.B.Unlock()
 	bdowns := map[uuid.UUID]*broker.DownState{}
+	o.AllDownAlias = map[uuid.UUID]uint32{}
 	for _, ds := range w.B.Downs() {
 		bdowns[ds.ID] = ds
+		o.AllDownAlias[ds.ID] = ds.Alias
 	}
 	w.B.Lock()
 	for _, d := range downs {
